@@ -17,6 +17,7 @@ def build(eng, tier):
     from . import usedef_targets
     usedef_targets.build(eng, "C06")
     usedef_targets.add_resize_outputs_effect_target(eng)
+    usedef_targets.add_graph_nodelist_effect_targets(eng)
     from . import init_targets
     init_targets.build(eng, "C06")
     from . import C12
